@@ -579,6 +579,20 @@ def generate_all(base_build_dir):
         groups["ed"] = {"obligations": er["obligations"], "failures": er["failures"]}
     except Exception as e:  # noqa: BLE001
         groups["ed"] = {"obligations": [], "failures": ["Edwards translator: %r" % (e,)]}
+    # final exponentiation of embedding degree 12 (C04): chains, dispatcher, fp12_conv_cyc
+    try:
+        import translate_pp
+        pr2 = translate_pp.generate()
+        groups["pp"] = {"obligations": pr2["obligations"], "failures": pr2["failures"]}
+    except Exception as e:  # noqa: BLE001
+        groups["pp"] = {"obligations": [], "failures": ["translate_pp: %r" % (e,)]}
+    # line functions of the Miller loops (C04)
+    try:
+        import translate_ppline
+        pl = translate_ppline.generate()
+        groups["ppline"] = {"obligations": pl["obligations"], "failures": pl["failures"]}
+    except Exception as e:  # noqa: BLE001
+        groups["ppline"] = {"obligations": [], "failures": ["translate_ppline: %r" % (e,)]}
     return {"groups": groups}
 
 
